@@ -1340,9 +1340,12 @@ fn new_eff_slot(w: &mut World) -> usize {
 // ---------------------------------------------------------------- op lines
 
 fn reset_case() {
-    // old world (owners, closures) must be dropped outside the borrow; tasks first
+    // old world (owners, closures) must be dropped outside the borrow.  The handles go first, the task futures
+    // after them: a task holds a clone of its `Owner`, so while the tasks are alive no arena value is the last
+    // holder of an owner.  (Dropping the futures first can deadlock the library: `Arena::with_mut` removes nodes
+    // under the arena's write lock, and an `ArcAsyncDerived` dropped there drops its `Owner`, whose `Drop` takes
+    // the same lock again when the owner still has nodes — see the comment in props/C08.known.)
     w(|w| w.active = false);
-    sched::reset();
     let old = w(|w| std::mem::take(w));
     drop(old);
     sched::reset();
@@ -1872,6 +1875,12 @@ struct Gen {
 impl Gen {
     fn push(&mut self, l: String) {
         // keep the real world in step so that later references are valid
+        if let Ok(path) = std::env::var("C08_GEN_TRACE") {
+            use std::io::Write;
+            if let Ok(mut f) = std::fs::OpenOptions::new().create(true).append(true).open(path) {
+                let _ = writeln!(f, "{l}");
+            }
+        }
         let _ = run_line(&l);
         self.lines.push(l);
     }
